@@ -205,15 +205,27 @@ def check_sympairs(ctx: Check, tree: Tree) -> None:
     for q in ("ampform.helicity.align.axisangle::formulate_wigner_rotation", "ampform.kinematics.angles::compute_wigner_angles"):
         fn = tree.func(q)
         rd = RD(fn.node)
-        ok = False
-        for d in rd.defs:
-            if d.name == "suffix" and d.value is not None and "get_helicity_suffix" in unparse(d.value):
-                ok = True
+        members = [m for fam in ("alpha{}", "beta{}", "gamma{}") for m in groups.get(fam, []) if m["fn"] == q]
+        ok = bool(members)
+        for m_ in members:
+            name_node = m_["node"].args[0]
+            placeholders = [v.value for v in ast.walk(name_node) if isinstance(v, ast.FormattedValue)]
+            for ph in placeholders:
+                srcs = [unparse(ph)] + [unparse(d.value) for d in rd.closure(rd.uses(ph)) if d.value is not None]
+                if not any("get_helicity_suffix(" in t for t in srcs):
+                    ok = False
         ctx.verdict(ok, "R-SYMPAIR", f"{q}::suffix", tree.loc(fn.node), f"{q.split('::')[-1]}: the angle suffix is get_helicity_suffix(topology, state id)")
     # the back-substitution filter in formulate selects exactly the mass family
     formulate = tree.func(FORMULATE)
-    txt = unparse(formulate.node)
-    ok = "s.name.startswith('m_')" in txt and "s.is_nonnegative" in txt
+    ok = False
+    for comp in [n for n in walk_function(formulate.node) if isinstance(n, (ast.ListComp, ast.GeneratorExp))]:
+        gen = comp.generators[0]
+        if not isinstance(gen.target, ast.Name):
+            continue
+        v = gen.target.id
+        tests = [unparse(t).replace('"', "'") for t in gen.ifs]
+        if any(t == f"{v}.name.startswith('m_')" for t in tests) and any(t == f"{v}.is_nonnegative" for t in tests):
+            ok = True
     ctx.verdict(ok, "R-SYMPAIR", f"{FORMULATE}::mass-filter", tree.loc(formulate.node), "formulate recognises leftover mass symbols by the `m_` prefix and the nonnegative assumption of the family")
 
 
@@ -334,8 +346,20 @@ def check_create(ctx: Check, tree: Tree) -> None:
         ctx.verdict(ok, "R-CREATE", f"{fn.qual}::registered", tree.loc(fn.node), f"{name}: the created symbol is stored in parameter_defaults and returned",
                     None if ok else {"created": [d.name for d in created], "stored": sorted(stored), "returned": sorted(returned)})
     dyn = tree.func(f"{BUILDER}.__formulate_dynamics")
-    loops = [n for n in walk_function(dyn.node) if isinstance(n, ast.For) and "parameters.items()" in unparse(n.iter)]
-    ok = len(loops) == 1 and any(isinstance(s, ast.Assign) and "parameter_defaults[par]" in unparse(s.targets[0]) and not any(isinstance(a, ast.If) for a in _anc_until(s, loops[0])) for s in walk_function(loops[0]))
+    drd = RD(dyn.node)
+    ok = False
+    for loop in [n for n in walk_function(dyn.node) if isinstance(n, ast.For) and isinstance(n.iter, ast.Call) and isinstance(n.iter.func, ast.Attribute) and n.iter.func.attr == "items"]:
+        # the iterated mapping is the second element of what the builder returned
+        base = loop.iter.func.value
+        src = list(drd.reaching(base)) if isinstance(base, ast.Name) else []
+        from_builder = any(d.index == 1 and d.value is not None and isinstance(d.value, ast.Call) for d in src)
+        if not (from_builder and isinstance(loop.target, ast.Tuple) and len(loop.target.elts) == 2):
+            continue
+        k, v = (unparse(e) for e in loop.target.elts)
+        for st in walk_function(loop):
+            if isinstance(st, ast.Assign) and isinstance(st.targets[0], ast.Subscript) and "parameter_defaults" in unparse(st.targets[0].value) \
+                    and unparse(st.targets[0].slice) == k and unparse(st.value) == v and not any(isinstance(a, ast.If) for a in _anc_until(st, loop)):
+                ok = True
     ctx.verdict(ok, "R-CREATE", f"{dyn.qual}::registers-builder-parameters", tree.loc(dyn.node), "__formulate_dynamics registers every parameter suggested by the dynamics builder (unconditionally)")
 
 
